@@ -130,7 +130,7 @@ func checkSpec(o *observation) ([]finding, *analysis) {
 					}
 				}
 			}
-			if o.Spec.TimeoutMs > 0 && !c.Faulted && mode == "queue" && c.EOF {
+			if o.Spec.TimeoutMs > 0 && !c.Faulted && mode == "queue" {
 				// process() reports nothing: with a short Timeout a write that timed out shows only as a
 				// connection the client gave up (closed) inside a frame
 				reportedTimeout = true
